@@ -155,8 +155,13 @@ T == Tokens
 PlainStrs == { <<"sl", "seg">> \o a \o b : a \in {<<>>, <<"p2f", "seg">>, <<"pct25">>, <<"plus", "seg">>, <<"sl", "seg", "pct26">>},
                                             b \in {<<>>, <<"q", "seg", "eq", "seg">>, <<"q", "seg", "eq", "seg", "pct26", "seg", "pct3D", "seg", "amp1", "seg", "eq", "plus">>,
                                                     <<"q", "seg", "eq", "pct25", "p2f">>, <<"q", "plus", "eq", "seg", "plus", "seg">>} }
+\* fragments are inert for a browser but not for whoever cleans the path of a Location: dot segments and back-slashes after '#'
+FragStrs == { hd \o <<"h">> \o t : hd \in {<<"sl", "seg">>, <<"sl">>, <<"sl", "seg", "sl", "seg">>},
+                                   t \in {<<"sl", "dd", "sl", "bs", "evil">>, <<"sl", "dd", "sl", "bs", "evil", "sl">>, <<"sl", "dd", "sl", "dd", "sl", "bs", "evil">>,
+                                          <<"sl", "dd", "sl", "sl", "evil">>, <<"sl", "dd", "sl", "dd", "sl", "sl", "evil", "sl">>, <<"dd", "bs", "evil">>,
+                                          <<"sl", "dd", "bs", "evil">>, <<"sl", "seg">>, <<"sl", "seg", "sl", "sl", "seg">>} }
 Init == \E wl \in WLs :
-        \/ \E s \in PortStrs \cup PlainStrs : c = [s |-> s, wl |-> wl]
+        \/ \E s \in PortStrs \cup PlainStrs \cup FragStrs : c = [s |-> s, wl |-> wl]
         \/ MaxLen >= 1 /\ \E a \in T : c = [s |-> <<a>>, wl |-> wl]
         \/ MaxLen >= 2 /\ \E a \in T, b \in T : c = [s |-> <<a, b>>, wl |-> wl]
         \/ MaxLen >= 3 /\ \E a \in T, b \in T, d \in T : c = [s |-> <<a, b, d>>, wl |-> wl]
@@ -183,8 +188,10 @@ Plain(s) == /\ s # <<>> /\ s[1] = "sl" /\ \A i \in 1..Len(s) : s[i] \in PlainTok
 CaseRec == [fam |-> "redirect", in |-> c,
             req |-> (IF Safe(BrowserResolve(c.s), c.wl) THEN [panic |-> FALSE] ELSE [accepted |-> FALSE, panic |-> FALSE])
                     @@ (IF Plain(c.s) THEN [accepted |-> TRUE, landsOnInput |-> TRUE] ELSE <<>>),
-            impl |-> [accepted |-> Impl_Valid(c.s, c.wl)], safe |-> Safe(BrowserResolve(c.s), c.wl)]
+            impl |-> [accepted |-> Impl_Valid(c.s, c.wl)], safe |-> Safe(BrowserResolve(c.s), c.wl),
+            \* the structurally built strings are always sent through the endpoints when the real validator accepts them (the grammar's are sampled)
+            must |-> c.s \in PortStrs \cup PlainStrs \cup FragStrs]
 EmitVocab == JsonSerialize("vocab.json", Vocab)
 \* only what matters is emitted: strings the model accepts, plus unsafe strings (the real validator must refuse those)
-EmitCase  == (Impl_Valid(c.s, c.wl) \/ ~Safe(BrowserResolve(c.s), c.wl)) => CSVWrite("%1$s", <<ToJson(CaseRec)>>, "cases.ndjson")
+EmitCase  == (Impl_Valid(c.s, c.wl) \/ ~Safe(BrowserResolve(c.s), c.wl) \/ c.s \in FragStrs) => CSVWrite("%1$s", <<ToJson(CaseRec)>>, "cases.ndjson")
 =============================================================================
